@@ -112,6 +112,7 @@ type tree struct {
 	keyByH     func(h arena.MemKeyHandle) []byte
 	valByH     func(h arena.MemKeyHandle) ([]byte, bool)
 	hasSeq     bool
+	pos        func() *unionstore.MemDBCheckpoint // end of the value log, no side effect (Checkpoint() remembers what it hands out)
 	stageCps   []*unionstore.MemDBCheckpoint
 	stageViews []view
 	cps        []cpRec
@@ -129,6 +130,7 @@ func newTree(name string, entry, buf uint64) *tree {
 		t.hist = db.SelectValueHistory
 		t.keyByH = db.GetKeyByHandle
 		t.valByH = db.GetValueByHandle
+		t.pos = db.VerifPosition
 		t.hasSeq = true
 	} else {
 		db := unionstore.VerifNewRBT(entry, buf)
@@ -138,6 +140,7 @@ func newTree(name string, entry, buf uint64) *tree {
 		t.hist = db.SelectValueHistory
 		t.keyByH = db.GetKeyByHandle
 		t.valByH = db.GetValueByHandle
+		t.pos = db.VerifPosition
 	}
 	return t
 }
@@ -329,7 +332,7 @@ func undoVerdict(what string, before, cur, after view) string {
 }
 
 func (t *tree) prune() {
-	cur := t.mb.Checkpoint()
+	cur := t.pos()
 	for i := range t.cps {
 		if t.cps[i].ok && cur.LessThan(t.cps[i].cp) {
 			t.cps[i].ok = false
@@ -583,7 +586,7 @@ func (t *tree) exec(w []string) string {
 			if len(t.stageCps) == 0 {
 				t.snapBase = t.values()
 			}
-			t.stageCps = append(t.stageCps, t.mb.Checkpoint())
+			t.stageCps = append(t.stageCps, t.pos())
 			t.stageViews = append(t.stageViews, v)
 			return strconv.Itoa(t.mb.Staging())
 		case "release", "cleanup":
